@@ -307,13 +307,18 @@ void TcpSock::last_close() {
     auto self = std::static_pointer_cast<TcpSock>(shared_from_this());
     switch (st) {
     case LISTEN:
-        for (auto &c : acceptq) { c->open_fds = 0; c->last_close(); }
+        // connections nobody accepted are reset (inet_csk_listen_stop), whatever they hold
+        for (auto &c : acceptq) { c->open_fds = 0; if (c->in) c->in->rq.clear(); if (!c->dead) tcp_send_rst(c); c->dead = true; c->last_close(); }
         acceptq.clear();
         break;
     case SYN_SENT: conn_gen++; break;
     case EST:
+        // the kernel keeps answering for a closed socket (reset for late data) whether or not anybody still refers to this object
+        if (auto p = peer.lock()) { if (p->closed) p->closed_peer.reset(); else p->closed_peer = self; }
+        closed_peer.reset();
         if (dead) break;
-        if (in && !in->rq.empty()) { tcp_send_rst(self); in->rq.clear(); }
+        if (opt(SOL_SOCKET, SO_LINGER, 0) && opt(SOL_SOCKET, 0x7f01, 0) == 0) { tcp_send_rst(self); if (in) in->rq.clear(); }   // SO_LINGER {on, 0}: abortive close
+        else if (in && !in->rq.empty()) { tcp_send_rst(self); in->rq.clear(); }
         else if (out && !out->fin_sent) {
             out->fin_sent = true;
             auto pipe = out;
@@ -422,6 +427,7 @@ static void tcp_complete_connect(std::weak_ptr<TcpSock> ws, uint64_t gen) {
     s->out = c2s; c->in = c2s; c->out = s2c; s->in = s2c;
     s->peer = c; c->peer = s;
     s->st = TcpSock::EST;
+    s->async_connect_pending_report = s->nonblock;
     s->ever_connected = true;
     s->last_activity = c->last_activity = G->now;
     if (K->cut_dir >= 0 && K->conn_count++ == K->cut_conn) {
@@ -509,7 +515,7 @@ short UnixSock::poll_mask() {
         auto p = peer.lock();
         bool pc = peer_closed || !p || p->closed;
         if (!rq.empty() || pc) m |= POLLIN;
-        if (pc) m |= POLLOUT | POLLHUP;
+        if (pc) m |= POLLOUT | POLLHUP | POLLRDHUP;
         else if (p->rq.size() < p->max_msgs && p->rq_bytes < p->max_bytes) m |= POLLOUT;
         if (reset_pending) m |= POLLERR;
         return m;
@@ -708,7 +714,7 @@ int connect(int fd, const struct sockaddr *sa, socklen_t len) {
         Addr a = Addr::from_sockaddr(sa, len);
         if (a.family != s->family) KERR(C_CONNECT, EAFNOSUPPORT);
         if (s->st == TcpSock::SYN_SENT) KERR(C_CONNECT, EALREADY);
-        if (s->st == TcpSock::EST) KERR(C_CONNECT, EISCONN);
+        if (s->st == TcpSock::EST) { if (s->async_connect_pending_report) { s->async_connect_pending_report = false; KRET(C_CONNECT, 0); } KERR(C_CONNECT, EISCONN); }
         if (s->st == TcpSock::LISTEN) KERR(C_CONNECT, EINVAL);
         if (s->st == TcpSock::DISCONNECTED) { if (s->so_error) { int er = s->so_error; s->so_error = 0; KERR(C_CONNECT, er); } s->st = TcpSock::FRESH; }
         if (int er = rescall_fault("connect")) KERR(C_CONNECT, er);
